@@ -48,4 +48,9 @@ func init() {
 		Decides:    "the SQL ref store's text and transaction discipline: no pattern operator (LIKE/GLOB/…) in any query, so prefix listing is literal and case-sensitive (C15-a); multi-statement writes run on one *sql.Tx (C13-g); the reflog's old value is read in the same transaction (C10-d); rename/copy/delete change ref and log rows together (C15-c).",
 		NotDecided: "sequence semantics of the store against a map model; the file store (pkg/ref/fs is imported only by tests and is outside the production call graph).",
 	}
+	props["C16"] = &propSpec{
+		Rules:      []string{"C16-a", "C16-b", "C16-c", "C16-d"},
+		Decides:    "for goroutines started in several instances on shared operands, every write to the shared state is synchronised (C16-a); the concurrently read progress-tracker fields are accessed atomically (C16-b); the ingest pool's error channel has room for one error per worker and a worker sends at most once (C16-c); no error is dropped in goroutine bodies (C16-d).",
+		NotDecided: "termination, deadlock freedom, equality with the sequential result, absence of every race (no may-happen-in-parallel analysis for main-vs-goroutine pairs).",
+	}
 }
